@@ -1220,15 +1220,21 @@ func (g *Gtp5g) CreateURR(lSeid uint64, req *ie.IE) error {
 		}
 	}
 
-	if rptTrig.PERIO() {
-		if measurePeriod <= 0 {
-			return errors.New("invalid measurement period")
-		}
-		g.ps.AddPeriodReportTimer(lSeid, urrid, measurePeriod)
+	if rptTrig.PERIO() && measurePeriod <= 0 {
+		return errors.New("invalid measurement period")
 	}
 
 	oid := gtp5gnl.OID{lSeid, uint64(urrid)}
-	return gtp5gnl.CreateURROID(g.client, g.link.link, oid, attrs)
+	err = gtp5gnl.CreateURROID(g.client, g.link.link, oid, attrs)
+	if err != nil {
+		// nothing was installed (e.g. the URR exists already): the periodic
+		// registration of an installed URR must stay what it is
+		return err
+	}
+	if rptTrig.PERIO() {
+		g.ps.AddPeriodReportTimer(lSeid, urrid, measurePeriod)
+	}
+	return nil
 }
 
 func (g *Gtp5g) UpdateURR(lSeid uint64, req *ie.IE) ([]report.USAReport, error) {
